@@ -144,7 +144,8 @@ def run_property(pid, rules, ctx, tier, level_text, assumptions, explanation, se
                        "findings": [f.as_dict() for f in rr.findings], "notes": rr.notes} for rr in results],
             "analysed": {"crates": ctx.prog.crates, "bodies": len(ctx.prog.bodies),
                          "call_edges": sum(len(v) for v in ctx.cg.out.values()),
-                         "facts_digest": ctx.prog.digest, "extraction": getattr(ctx.prog, "extract_info", {})},
+                         "facts_digest": ctx.prog.digest, "extraction": getattr(ctx.prog, "extract_info", {}),
+                         "helpers_not_on_reference_tree": getattr(ctx, "inline_report", {})},
             "known_findings_hit": [{"rule": f.rule, "key": f.key, "what_fails": k["what_fails"]} for f, k in known_hits],
             "trusted_base": ["rustc 1.97-nightly MIR construction (mir_built) and trait resolution", "the fact extractor /verif/driver", "callback summaries and thread-root tables in /verif/analysis"],
             "checker_cmd": "./check %s --tier %s" % (pid, tier),
